@@ -1353,6 +1353,14 @@ class PrivKey(PubKey):
 
 
 class OpaquePrivKey(PrivKey, OpaquePubKey):  # pragma: no cover
+    # the opaque octets are the whole key material as received, public part, string-to-key usage and secret part
+    # undivided: nothing of this class's own (unused) String2Key or checksum is written or counted after them
+    def __len__(self):
+        return OpaquePubKey.__len__(self)
+
+    def __bytearray__(self):
+        return OpaquePubKey.__bytearray__(self)
+
     def __privkey__(self):
         return NotImplemented
 
